@@ -781,3 +781,7 @@ def run(ctx, shard):
         from vmon.repotests import run_repo_tests
         run_repo_tests(ctx, ['tests_sim/test_sim_state.py', 'tests_sim/test_sim_dm.py', 'tests_sim/test_sim_circuit.py', 'test_gate.py'])
     ctx.extra['worst_abs_error'] = mon.worst
+
+
+# thorough tier: every random shard is run this many times with independent random streams (see vmon/runner.py get_shards)
+THOROUGH_REPEAT = 10
